@@ -107,7 +107,8 @@ Theorem cp_law a b c t t' :
   stat a t' = Some (File c) /\ stat b t' = Some (File c) /\ is_dir_at t' (parent (pk b)) = true
   /\ (forall q, ~ q `prefix_of` pk b -> t' !! q = t !! q).
 Proof.
-  intros Es. unfold S_cp. rewrite Es. destruct (put_file b c t) as [t1|] eqn:E; [|done]. intros [= <-].
+  intros Es. unfold S_cp. rewrite Es. destruct (same_entry a b); [done|].
+  destruct (put_file b c t) as [t1|] eqn:E; [|done]. intros [= <-].
   pose proof (put_file_stat _ _ _ _ E) as Hb. split; [|split; [done|]].
   - apply put_file_Some in E as (t0 & Hm & Hp & Hk & Hd & ->). apply stat_file in Es as [Hl Hpa].
     apply stat_file. split; [|done]. destruct (decide (pk a = pk b)) as [->|Hne].
@@ -121,15 +122,17 @@ Qed.
 
 (* ---- move of a file = copy then delete -------------------------------------------------------------- *)
 Theorem mv_is_cp_then_rm a b c t :
-  stat a t = Some (File c) -> p_is_dir b t = false -> ends_sep b = false ->
+  stat a t = Some (File c) -> p_is_dir b t = false -> ends_sep b = false -> pk a <> pk b ->
   S_mv a b t = (let '(o, t1) := S_cp a b t in
                 match o with OVal _ => S_rm None [a] t1 | _ => (OErr, t) end).
 Proof.
-  intros Es Hd He. rewrite (S_mv_unfold _ _ _ _ Es). unfold mv_target. rewrite Hd, He. cbn [orb].
-  unfold S_cp. rewrite Es. destruct (put_file b c t) as [t1|] eqn:E; [|done].
+  intros Es Hd He Hne. rewrite (S_mv_unfold _ _ _ _ Es). unfold mv_target. rewrite Hd, He. cbn [orb].
+  unfold S_cp. rewrite Es. unfold same_entry. rewrite (bool_decide_eq_false_2 _ Hne), andb_false_r.
+  destruct (put_file b c t) as [t1|] eqn:E; [|done].
   cbn [S_rm S_rm_list]. unfold S_rm_one.
   assert (stat a t1 = Some (File c)) as ->; [|done].
-  pose proof (cp_law a b c t t1 Es) as H. unfold S_cp in H. rewrite Es, E in H. by destruct H.
+  apply put_file_Some in E as (t0 & Hm & Hp & Hk & Hd' & ->). apply stat_file in Es as [Hl Hpa].
+  apply stat_file. split; [|done]. rewrite lookup_insert_ne by done. by eapply mkdirs_keeps.
 Qed.
 Theorem mv_into_directory a b name t :
   p_is_dir b t = true -> last (pk a) = Some name ->
@@ -194,7 +197,7 @@ Proof.
     destruct (put_file _ _ _); [by right|by left].
   - unfold S_mkdir. destruct (mkdirs _ _); [by right|by left].
   - unfold S_cp. destruct (stat a t) as [[c|]|]; [|by left|by left].
-    destruct (put_file _ _ _); [by right|by left].
+    destruct (same_entry a b); [by left|]. destruct (put_file _ _ _); [by right|by left].
   - destruct (stat a t) as [[c|]|] eqn:Es.
     + rewrite (S_mv_unfold _ _ _ _ Es). destruct (put_file _ _ _); [by right|by left].
     + unfold S_mv. rewrite Es. by left.
@@ -347,19 +350,6 @@ Lemma F15_witness :
               t' !! [[116%N]; [102%N]] = Some (File [120%N]) /\ t' !! [[102%N]] = None) /\
   (exists t', last (run S_step ops ∅) = Some (OVal s_true, t') /\ t' !! [[116%N]] = Some (File [120%N]) /\
               t' !! [[116%N]; [102%N]] = None /\ t' !! [[102%N]] = None).
-Proof.
-  cbn zeta. split; [|split; [|split]].
-  - split; [by vm_compute|]. split; [by vm_compute|done].
-  - right. left. by vm_compute.
-  - eexists. split; [vm_compute; reflexivity|]. by vm_compute.
-  - eexists. split; [vm_compute; reflexivity|]. by vm_compute.
-Qed.
-(* cp f f empties f *)
-Lemma cp_self_witness :
-  let ops := [WriteB w_f [120%N]; Cp w_f w_f] in
-  in_domain ops ∅ /\ KnownCpSelf ops ∅ /\
-  (exists t', last (run M ops ∅) = Some (OVal s_true, t') /\ t' !! [[102%N]] = Some (File [])) /\
-  (exists t', last (run S_step ops ∅) = Some (OVal s_true, t') /\ t' !! [[102%N]] = Some (File [120%N])).
 Proof.
   cbn zeta. split; [|split; [|split]].
   - split; [by vm_compute|]. split; [by vm_compute|done].
